@@ -297,4 +297,147 @@ def verify_wb_csr_bridge_init():
     return fv
 
 
-ALL = [verify_eventmonitor_init, verify_wb_csr_bridge_init]
+def verify_sram_init():
+    """wishbone.sram.WishboneSRAM.__init__ (C15), all parameter values:
+      refusals        TypeError iff size is not a positive int power of two, or data_width / granularity (default: the data width) is not
+                      in {8,16,32,64};  ValueError iff size * granularity < data_width;  nothing else is refused by the constructor itself
+      memory          depth = size * granularity // data_width rows of unsigned(data_width) with the given init image
+      ports           one read port; one write port of the bus granularity iff writable (writable is taken by truth value)
+      bus             wishbone.Signature(addr_width = log2(depth), data_width, granularity)
+      memory map      MemoryMap(addr_width = log2(size), data_width = granularity) with the memory as its only resource, named ("mem",),
+                      of size `size` at an implicit address; frozen; carried by wb_bus
+      geometry        2**bus_addr_width * (data_width // granularity) == size == 2**map_addr_width  when granularity <= data_width
+                      (the bus addresses exactly the granules the map describes)"""
+    FILE = "amaranth_soc/wishbone/sram.py"
+    fv = FnVerifier("wishbone.sram.WishboneSRAM.__init__", AX)
+    fn = find_def(FILE, "WishboneSRAM.__init__")
+    ex = Exec(FILE, "WishboneSRAM", axioms=AX)
+    rec = Recorder()
+    logs = []
+
+    def c_exact_log2(ex_, recv, a, kw, q, node):
+        x = ex_.toint(a[0], node)
+        k_ = z3.Int(f"log2#{len(logs)}"); logs.append((k_, x))
+        bad = q.fork(); bad.ghost["log2_refused"] = True
+        q.assume(z3.And(k_ >= 0, pow2(k_) == x))
+        return [(k_, q), (Raised("ValueError"), bad)]
+    ex.contracts["exact_log2"] = c_exact_log2
+    ex.contracts["unsigned"] = lambda ex_, recv, a, k, q, node: [(("unsigned", a[0]), q)]
+    ex.contracts["MemoryData"] = rec.ctor("MemoryData", fields=lambda a, k, o: dict(k))
+
+    class MemModel:
+        def call_read_port(self, ex_, recv, a, k, q, node):
+            rec.calls.append(("read_port", q.fork(), a, k, recv)); return [(SymObj("ReadPort", "read_port"), q)]
+
+        def call_write_port(self, ex_, recv, a, k, q, node):
+            rec.calls.append(("write_port", q.fork(), a, k, recv)); return [(SymObj("WritePort", "write_port"), q)]
+
+    def c_memory(ex_, recv, a, k, q, node):
+        obj = SymObj("Memory", "memory", model=MemModel())
+        data = a[0]
+        if isinstance(data, SymObj) and "depth" in data.init_fields:
+            obj.init_fields["depth"] = data.init_fields["depth"]
+        rec.calls.append(("Memory", q.fork(), a, k, obj))
+        return [(obj, q)]
+    ex.contracts["Memory"] = c_memory
+    ex.contracts["Signature"] = rec.ctor("Signature", fields=lambda a, k, o: dict(k))
+    ex.contracts["In"] = lambda ex_, recv, a, k, q, node: [(("In", a[0]), q)]
+    ex.contracts["super"] = lambda ex_, recv, a, k, q, node: [(Opaque("super()"), q)]
+
+    def c_memory_map(ex_, recv, a, k, q, node):
+        obj = SymObj("MemoryMap", "wb_map", model=MapModel(rec))
+        rec.calls.append(("MemoryMap", q.fork(), a, k, obj))
+        return [(obj, q), (Raised("refused-by-MemoryMap"), q.fork())]
+    ex.contracts["MemoryMap"] = c_memory_map
+
+    class PortModel:
+        def setattr(self, ex_, obj, attr, value, q, node):
+            if attr != "memory_map":
+                return None
+            q.heap[(id(obj), attr)] = value
+            q.writes.append((obj.name, attr))
+            return [("fall", None, q), ("raise", "refused-by-memory_map-setter", q.fork())]
+
+    def c_super_init(ex_, recv, a, k, q, node):
+        members = a[0]
+        self__ = q.env["self"]
+        if not isinstance(members, DictLit):
+            raise Unsupported("wiring.Component.__init__ with something else than a dict literal")
+        q.ghost["members"] = members.items
+        for name, (direction, sig) in members.items.items():
+            port = SymObj("WbPort", f"self.{name}", model=PortModel())
+            port.init_fields["signature"] = sig
+            q.heap[(id(self__), name)] = port
+        return [(NONE, q)]
+    ex.contracts["super().__init__"] = c_super_init
+    WR = z3.Bool("writable_is_truthy")
+    ex.contracts["bool"] = lambda ex_, recv, a, k, q, node: [(WR, q)] if a[0] is writable else (_ for _ in ()).throw(Unsupported("bool() of something else"))
+    writable = Opaque("writable argument")
+    init = Opaque("init argument")
+    q = Path()
+    self_ = SymObj("WishboneSRAM", "self")
+    size, dw, g = Dyn("size"), Dyn("data_width"), Dyn("granularity")
+    q.assume(z3.And(size.wf(), dw.wf(), g.wf()))
+    q.env.update({"self": self_, "size": size, "data_width": dw, "granularity": g, "writable": writable, "init": init})
+    outs = ex.run(fn, q)
+    fv.paths = len(outs)
+    inset = lambda v: z3.Or(*[v == w for w in (8, 16, 32, 64)])
+    G = z3.If(g.tag == T_NONE, dw.ival, g.ival)
+    n_ok = 0
+    for kk, o in enumerate(outs):
+        p, lab = o.path, f"path{kk}"
+        # the value the engine gave `size & size - 1` on this path (pow2tests ghost): named so the lemma can speak about it
+        tests = [r for (x, r) in p.ghost.get("pow2tests", ()) if x is not None]
+        size_ok_by_test = z3.And(size.tag == T_INT, size.ival > 0, *[r == 0 for r in tests]) if tests else None
+        if o.kind == "raise":
+            if o.exc.startswith("refused-by-") or p.ghost.get("log2_refused"):
+                continue
+            fv.add("raises-only-TypeError-or-ValueError", lab, p.pc, z3.BoolVal(o.exc in ("TypeError", "ValueError")))
+            types_ok = z3.And(size.tag == T_INT, size.ival > 0, *([r == 0 for r in tests]), dw.tag == T_INT, inset(dw.ival),
+                              z3.Or(g.tag == T_NONE, z3.And(g.tag == T_INT, inset(g.ival))))
+            if o.exc == "TypeError":
+                fv.add("TypeError-only-for-a-bad-size-or-width", lab, p.pc, z3.Not(types_ok))
+            else:
+                fv.add("ValueError-only-when-the-memory-is-smaller-than-one-word", lab, p.pc, z3.And(types_ok, size.ival * G < dw.ival))
+            continue
+        n_ok += 1
+        mine = [c for c in rec.calls if all(any(f.eq(h) for h in p.pc) for f in c[1].pc)]
+        by = lambda what: [c for c in mine if c[0] == what]
+        shape = all(len(by(w)) == 1 for w in ("MemoryData", "Memory", "Signature", "MemoryMap", "add_resource", "freeze", "read_port")) and len(by("write_port")) <= 1
+        fv.add("one-memory-one-signature-one-map-one-resource", lab, p.pc, z3.BoolVal(shape))
+        if not shape:
+            continue
+        fv.add("accepts-only-valid-parameters", lab, p.pc,
+               z3.And(size.tag == T_INT, size.ival > 0, dw.tag == T_INT, inset(dw.ival), inset(G), size.ival * G >= dw.ival))
+        md, sg, mm, ar = by("MemoryData")[0], by("Signature")[0], by("MemoryMap")[0], by("add_resource")[0]
+        depth = ex.toint(md[3]["depth"])
+        fv.add("memory-depth-is-size-times-granularity-over-data-width", lab, p.pc, depth == (size.ival * G) / dw.ival)
+        fv.add("memory-rows-are-unsigned-data-width-with-the-given-init", lab, p.pc,
+               z3.BoolVal(isinstance(md[3].get("shape"), tuple) and md[3]["shape"][0] == "unsigned" and md[3]["shape"][1] is dw and md[3].get("init") is init))
+        fv.add("memory-built-from-that-data", lab, p.pc, z3.BoolVal(by("Memory")[0][2][0] is md[4]))
+        wp = by("write_port")
+        w_true = any(f.eq(WR) for f in p.pc); w_false = any(z3.is_not(f) and f.arg(0).eq(WR) for f in p.pc)
+        fv.add("write-port-iff-writable", lab, p.pc, z3.BoolVal((w_true and len(wp) == 1) or (w_false and len(wp) == 0)))
+        if wp:
+            fv.add("write-port-has-the-bus-granularity", lab, p.pc, ex.toint(wp[0][3]["granularity"]) == G if "granularity" in wp[0][3] else z3.BoolVal(False))
+        baw, bdw, bg = (ex.toint(sg[3][x]) for x in ("addr_width", "data_width", "granularity"))
+        fv.add("bus-geometry", lab, p.pc, z3.And(bdw == dw.ival, bg == G, baw >= 0, pow2(baw) == depth))
+        maw, mdw = ex.toint(mm[3]["addr_width"]), ex.toint(mm[3]["data_width"])
+        # (C15 quantifies over sizes 2..N: a one-granule memory would need a zero-width memory map, which MemoryMap refuses)
+        fv.add("map-geometry", lab, p.pc, z3.Implies(size.ival >= 2, z3.And(mdw == G, maw >= 0, pow2(maw) == size.ival)))
+        fv.add("bus-addresses-exactly-the-granules-of-the-map", lab, p.pc, z3.Implies(z3.And(G <= dw.ival, size.ival >= 2), pow2(baw) * (dw.ival / G) == pow2(maw)))
+        nm = ar[3].get("name")
+        fv.add("memory-is-the-only-resource-named-mem-of-the-full-size", lab, p.pc,
+               z3.And(z3.BoolVal(ar[2][0] is by("Memory")[0][4] and ar[4] is mm[4] and "addr" not in ar[3] and "alignment" not in ar[3]
+                                 and isinstance(nm, tuple) and len(nm) == 1 and isinstance(nm[0], Opaque) and nm[0].what == "str:mem"),
+                      ex.toint(ar[3]["size"]) == size.ival))
+        fv.add("map-frozen-after-the-resource", lab, p.pc, z3.BoolVal(by("freeze")[0][4] is mm[4] and len(by("freeze")[0][1].pc) >= len(ar[1].pc)))
+        port = p.heap.get((id(self_), "wb_bus"))
+        fv.add("wb_bus-carries-that-map", lab, p.pc, z3.BoolVal(port is not None and p.heap.get((id(port), "memory_map")) is mm[4]))
+        fv.add("size-and-writable-kept", lab, p.pc, z3.BoolVal(p.heap.get((id(self_), "_size")) is size and p.heap.get((id(self_), "_writable")) is WR))
+    fv.add("cover:accepting-paths", "vacuity", [], z3.BoolVal(n_ok >= 2))
+    fv.add_engine_obligations(ex)
+    return fv
+
+
+ALL = [verify_eventmonitor_init, verify_wb_csr_bridge_init, verify_sram_init]
